@@ -1269,7 +1269,8 @@ class element_if(x12_node):
             return False  # skip following checks, control character errors trump all
             
         if data_type in ['AN', 'ID'] and elem_val[-1] == ' ':
-            if len(elem_val.rstrip()) >= min_len:
+            # blanks are needed only to reach the minimum length
+            if len(elem_val) > min_len:
                 err_str = 'Data element "%s" (%s) has unnecessary trailing spaces. (%s)' % \
                     (self.name, self.refdes, elem_val)
                 self._error(errh, err_str, '6', elem_val)
